@@ -1,6 +1,8 @@
 #!/bin/sh
 # tools/mut.sh <PROP> <file-relative-to-repo> <sed-expression>   — apply a one-line mutant, run the check, revert.
 # (Contracts must be committed in /repo first; only the named file is reverted.)
+# mutant runs must not leave their evidence behind: the committed evidence is what tools/refresh.sh wrote on the clean tree
+EVBAK=$(mktemp -d); cp -r /verif/evidence/. $EVBAK/ 2>/dev/null; trap 'cp -r $EVBAK/. /verif/evidence/ 2>/dev/null; rm -rf $EVBAK' EXIT  # ev.bak
 P=$1; F=$2; E=$3
 cd /repo || exit 2
 git diff --quiet || { echo "repo dirty"; exit 2; }
